@@ -127,11 +127,11 @@ def check_case(w, spec, how='pos'):
         got = (o.start, o.stop, o.stride)
         if got != w._range(spec[1], spec[2]):
             problems.append(('a slice of a mapped sequence carries the wrong range', {'observed': repr(got), 'expected': repr(w._range(spec[1], spec[2]))}))
-    return problems, dict(obj=o, consumer=c, deps=deps, obs=obs, ref=ref, reads=reads, oom=oom, occ=occ)
+    return problems, dict(obj=o, consumer=c, deps=deps, obs=obs, ref=ref, reads=reads, oom=oom, oom_reason=w.oom_reason, occ=occ)
 
 
 def replay_obj(w, spec, how, what, kind, extra):
-    d = {'kind': kind, 'what': what, 'world': w.describe(), 'spec': repr(spec), 'how': how}
+    d = {'kind': kind, 'what': what, 'world': w.describe(), 'spec': depsgen.pyrepr(spec), 'how': how}
     d.update(extra)
     return d
 
@@ -200,8 +200,8 @@ def scenario(desc, spec, how, prefill, invalidate_idx):
         depsgen.write_jugfile(jf, desc, spec, how)
         # the world as the harness sees it (same hashes as inside the jugfile)
         w = depsgen.World(None, desc=desc, dump=False)
-        alltasks = w.all_tasks()
         o = w.realise(spec)
+        alltasks = w.all_tasks()         # after realise: identity(plain value) adds a task
         c = depsgen.consumer_task(o, how)
         ch = c.hash()
         occ = w.occ(spec)
@@ -303,8 +303,8 @@ def gen_scenario(ck, w, spec):
 def enum_specs(max_size):
     """every argument structure with at most max_size nodes over a fixed alphabet (2 base tasks, one
     mapped sequence): leaves, tasklet forms over task-like bases, wrappers and containers"""
-    leaves_any = [('val', 1), ('val', 'a'), ('task', 0), ('task', 1), ('mapseq', 0), ('mapslice', 0, [(1, None, 2)]),
-                  ('nohash_task', 0), ('opaque', [0])]
+    leaves_any = [('val', 1), ('val', 'a'), ('val', depsgen.Pt(1, 'a')), ('task', 0), ('task', 1), ('mapseq', 0),
+                  ('mapslice', 0, [(1, None, 2)]), ('nohash_task', 0), ('opaque', [0])]
     anys = {1: leaves_any}
     taskish = {1: [('task', 0), ('task', 1)]}
     for n in range(2, max_size + 1):
@@ -342,6 +342,13 @@ EXH_WORLDS = [
     {'results': [[5, 6], 'a'], 'stored': [False, True], 'maps': [{'xs': [0, 1, 2, 3, 4], 'bs': 2, 'stored': [False, True, True]}]},
     {'results': [(7, {'a': 8}), 1], 'stored': [True, True], 'maps': [{'xs': [0, 1, 2, 3, 4], 'bs': 2, 'stored': [True, True, False]}]},
 ]
+# base results that are instances of container subclasses (indexed, sliced, unpacked, handed over whole)
+SUB_WORLDS = [
+    {'results': [depsgen.Pt([5, 6], depsgen.OrderedDict([('a', 1)])), 1], 'stored': [True, True],
+     'maps': [{'xs': [0, 1, 2], 'bs': 2, 'stored': [True, True]}]},
+    {'results': [depsgen.defaultdict(int, {'a': depsgen.MyList([1, 2]), 1: 0}), 'a'], 'stored': [True, True],
+     'maps': [{'xs': [0, 1, 2], 'bs': 2, 'stored': [True, False]}]},
+]
 
 
 # minimised past failures, run first in every tier and every exhaustive world
@@ -357,6 +364,22 @@ CORPUS = [
     ('getitem', ('task', 0), ('getitem', ('task', 0), ('task', 1))),
     ('custom', ('list', [('task', 1), ('getitem', ('task', 0), ('val', 'a'))])),
     ('dict', [('a', ('custom', ('task', 0))), (0, ('fun', ('mapslice', 0, [(0, 3, None)]), 'wrap'))]),
+    # seeded C16-m5: value() rebuilt instances of list/tuple/dict SUBCLASSES as plain containers
+    ('val', depsgen.Pt(1, 2)),
+    ('val', depsgen.MyList([1, [2]])),
+    ('custom', ('val', depsgen.MyTuple((1, 'a')))),
+    ('custom', ('list', [('val', depsgen.OrderedDict([('b', 1), ('a', 2)])), ('task', 1)])),
+    ('nohash_val', depsgen.defaultdict(list, {'a': [1]})),
+    ('dict', [('a', ('val', depsgen.defaultdict(int, {0: 1}))), ('b', ('val', depsgen.MyDict({'a': 0})))]),
+    ('identity_val', depsgen.Pt(3, (4,))),
+    ('identity_val', depsgen.OrderedDict([('a', 1)])),
+    ('subopaque', 'Pt', [0]),
+    ('subopaque', 'MyList', [0, 1]),
+    ('subopaque', 'OrderedDict', [1]),
+    ('custom', ('subopaque', 'defaultdict', [0])),
+    ('getitem', ('task', 0), ('val', depsgen.Pt(0, 0))),
+    # a defaultdict result indexed with a missing key changes the (cached) result every later reader sees
+    ('list', [('task', 0), ('getitem', ('task', 0), ('val', 'zz')), ('task', 0)]),
 ]
 
 
@@ -387,7 +410,7 @@ class Collector:
         for what, details in problems:
             ck.violation(replay_obj(w, spec, how, what, 'impl-violation', dict(details, arg=lit)))
         if info['oom']:
-            ck.count('outside-model(str index / bool index / return_tuple of dict)')
+            ck.count('outside-model(%s)' % info['oom_reason'])
             return nontriv, False
         try:
             obs_lit = outcome_lit(info['obs'], w)
@@ -424,6 +447,12 @@ def run(ck):
     scen_pool = []
     # ---- exhaustive: every structure of <= 3 (quick) / 4 (thorough) nodes, in worlds with different results missing
     specs = enum_specs(ck.n(3, 4))
+    for desc in SUB_WORLDS:
+        w = depsgen.World(None, desc=desc)
+        cache = {}
+        for spec in CORPUS + enum_specs(2) + [('getitem', ('task', 0), ('val', sl)) for sl in (slice(0, 1), slice(None, None, -1))]:
+            col.case(w, spec, 'pos', cache, 'subclass-world')
+        check_store_keys(ck, w)
     for desc in (EXH_WORLDS[:2] if ck.tier != 'thorough' else EXH_WORLDS):
         w = depsgen.World(None, desc=desc)
         cache = {}
@@ -441,7 +470,8 @@ def run(ck):
             spec = w.gen_spec(3)
             how = ck.rng.choice(['pos', 'pos', 'pos', 'kw', 'nested'])
             nontriv, added = col.case(w, spec, how, cache, 'spec')
-            if nontriv and len(scen_pool) < 4 * nscen and ck.rng.random() < 0.5:
+            # (a container subclass holding Task objects is hashed by pickling them: not a usable jugfile argument)
+            if nontriv and "'subopaque'" not in repr(spec) and len(scen_pool) < 4 * nscen and ck.rng.random() < 0.5:
                 scen_pool.append((w.desc, spec))
         # ---- derived objects are never stored themselves
         check_store_keys(ck, w)
@@ -460,7 +490,7 @@ def run(ck):
         except Exception as e:
             problems = [('the execute/invalidate scenario crashed: %s' % type(e).__name__, {'error': repr(e)})]
         for what, details in problems:
-            ck.violation(dict({'kind': 'impl-violation', 'what': what, 'world': repr(desc), 'spec': repr(spec), 'how': how,
+            ck.violation(dict({'kind': 'impl-violation', 'what': what, 'world': depsgen.pyrepr(desc), 'spec': depsgen.pyrepr(spec), 'how': how,
                                'scenario': {'prefill': prefill, 'invalidate': inv}}, **details))
     ck.count('scenarios(execute+invalidate)', len(scen_pool[:nscen]))
     jugrun.fresh()
